@@ -374,3 +374,10 @@ func init() {
 		mutant{Name: "benign-switch-tag-generator-renamed", Prop: "C02", File: "interp/run.go", Old: "\t\tl := len(n.anc.anc.child)\n\t\tvalue := genValue(n.anc.anc.child[l-2])\n", New: "\t\tsw := n.anc.anc\n\t\tvalue := genValue(sw.child[len(sw.child)-2])\n", Benign: true},
 	)
 }
+
+func init() {
+	addMutants(
+		// D109 reverted
+		mutant{Name: "case-expressions-not-checked-against-the-tag", Prop: "C12", File: "interp/cfg.go", Old: "\t\t\t\t\t\tif !e.typ.assignableTo(tag.typ) && !tag.typ.assignableTo(e.typ) {\n\t\t\t\t\t\t\terr = e.cfgErrorf(\"invalid case in switch (mismatched types %s and %s)\", e.typ.id(), tag.typ.id())\n\t\t\t\t\t\t\treturn\n\t\t\t\t\t\t}\n", New: "", Rule: "R12.22", Key: "cfg/case:switchStmt/case-expressions-checked-against-the-tag"},
+	)
+}
